@@ -140,6 +140,14 @@ def scenario_lines(sc, subset, tag):
         elif ev[0] == "X":
             if ev[1] in subset:
                 L.append("script cv bias b%d set active %s" % (ev[1], "on" if ev[2] else "off"))
+        elif ev[0] == "Y":      # run-time switch of a feature the configuration fixed: apply_force of a bias
+            if ev[1] in subset:
+                L.append("script cv bias b%d set apply_force %s" % (ev[1], "on" if ev[2] else "off"))
+        elif ev[0] == "D":      # the bias is deleted in the middle of the run
+            if ev[1] in subset:
+                L.append("script cv bias b%d delete" % ev[1])
+        elif ev[0] == "C":      # a configuration that is rejected (harmonic restraint without centers) in the middle of the session
+            L += ["config EOF", "harmonic {", "  name rejected%d" % ev[1], "  colvars v0", "  forceConstant 2.0", "}", "EOF"]
     L.append("echo END %s" % tag)
     return L
 
@@ -202,7 +210,7 @@ def model_case(sc, subset, fixed=FIXED, efix=EFIX):
             p += ["C", hx(b.get("e", 0.0))]
         g = b.get("grid")
         p += (["S", hx(g["lo"]), hx(g["w"]), str(len(g["vals"]))] + [hx(x) for x in g["vals"]]) if g else ["N"]
-    evs = [ev for ev in sc["events"] if ev[0] in ("S", "R") or ev[1] in subset]
+    evs = [ev for ev in sc["events"] if ev[0] in ("S", "R") or (ev[0] == "X" and ev[1] in subset)]
     p.append(str(len(evs)))
     for ev in evs:
         if ev[0] in ("S", "R"):
@@ -273,7 +281,10 @@ def parse_impl(lines):
             cur["complete"] = True
             cur = None
         elif l.startswith("CONFIG"):
-            cur["config"] = l
+            if cur["config"] is None:
+                cur["config"] = l
+            else:
+                cur.setdefault("config_later", []).append(l)
         elif l.startswith("SCRIPT"):
             cur["script"].append(l)
             if st is not None and "result=" in l and "getE" not in st:
@@ -354,7 +365,7 @@ def gen_scenario(r, k, family="mix"):
     nv = r.randint(1, 3)
     vars_ = []
     for i in range(nv):
-        ncomp = 1 if r.random() < 0.7 else 2
+        ncomp = r.choice([1, 1, 1, 1, 1, 1, 2, 2, 3])     # >= 3 components with the odd one (exponent) in the middle
         comps = []
         for _ in range(ncomp):
             if pairs and r.random() < 0.4:
@@ -401,6 +412,8 @@ def gen_scenario(r, k, family="mix"):
         if family == "mix" and s > 0 and r.random() < 0.12:
             j = r.randrange(nb)
             events.append(("X", j, r.random() < 0.4))
+        if family == "mix" and s > 0 and r.random() < 0.05:
+            events.append(("C", len(events)))
         typ = "R" if (family == "mix" and s > 0 and r.random() < 0.08) else "S"
         events.append((typ, [list(p) for p in pos]))
     # partition of the bias list into A and B (order preserved)
@@ -423,6 +436,8 @@ def spec_run(sc, subset):
     has not disabled it and the step is a multiple of its factor; it is evaluated only then (ABMD's reference
     moves only then) and applies factor * F.  Variable-level factors are not applied here (see oracle O4)."""
     user = {j: True for j in subset}
+    uapply = {j: True for j in subset}
+    deleted = set()
     abmd = {j: None for j in subset}
     it = sc["it0"]
     first = True
@@ -432,6 +447,15 @@ def spec_run(sc, subset):
             if ev[1] in user:
                 user[ev[1]] = bool(ev[2])
             continue
+        if ev[0] == "Y":
+            if ev[1] in uapply:
+                uapply[ev[1]] = bool(ev[2])
+            continue
+        if ev[0] == "D":
+            deleted.add(ev[1])
+            continue
+        if ev[0] == "C":
+            continue            # a rejected configuration changes nothing
         if ev[0] == "S":
             if not first:
                 it += 1
@@ -443,8 +467,8 @@ def spec_run(sc, subset):
         per = {}
         for j in subset:
             b = sc["biases"][j]
-            contributing = user[j] and (it % b["tsf"] == 0)
-            per[j] = {"contributing": contributing}
+            contributing = user[j] and (it % b["tsf"] == 0) and j not in deleted
+            per[j] = {"contributing": contributing, "deleted": j in deleted}
             if not contributing:
                 continue
             k = fr(b["k"])
@@ -486,7 +510,7 @@ def spec_run(sc, subset):
                 per[j]["fac"] = fac
             per[j]["E"] = e
             per[j]["F"] = Fs
-            applies = b["kind"] not in ("G", "F")
+            applies = b["kind"] not in ("G", "F") and uapply[j]
             if applies:
                 E += e
                 for n, i in enumerate(b["vars"]):
@@ -610,9 +634,14 @@ def oracle_spec(run, sc, tag, subset, isteps):
     for s in range(n):
         sp, im = spec[s], isteps[s]
         # classification of a disagreement by the activity flags of the biases
+        byname = {bb["name"]: bb for bb in im["B"]}
         for q, j in enumerate(subset):
             b = sc["biases"][j]
-            act = im["B"][q]["act"] if q < len(im["B"]) else None
+            act = byname["b%d" % j]["act"] if ("b%d" % j) in byname else None
+            if sp["per"][j].get("deleted") and act is not None:
+                run.violation("pipeline:deleted:still-there", "scenario %d run %s step %d: bias b%d was deleted but is still listed" % (sc["id"], tag, s, j),
+                              replay_of(sc, {tag: subset}, {"step_index": s, "bias": j}))
+                return
             want = sp["per"][j]["contributing"]
             if act is not None and bool(act) != want:
                 disabled = not user_enabled_at(sc, j, s)
@@ -645,10 +674,12 @@ def oracle_spec(run, sc, tag, subset, isteps):
             return
         # evaluated only when contributing: a sleeping/disabled bias keeps the energy and forces of its last evaluation
         if s > 0:
+            prevname = {bb["name"]: bb for bb in isteps[s - 1]["B"]}
             for q, j in enumerate(subset):
-                if not sp["per"][j]["contributing"] and q < len(im["B"]) and q < len(isteps[s - 1]["B"]):
-                    if im["B"][q]["E"] != isteps[s - 1]["B"][q]["E"] or im["B"][q]["F"] != isteps[s - 1]["B"][q]["F"] \
-                       or im["B"][q]["REF"] != isteps[s - 1]["B"][q]["REF"]:
+                nm = "b%d" % j
+                if not sp["per"][j]["contributing"] and nm in byname and nm in prevname:
+                    if byname[nm]["E"] != prevname[nm]["E"] or byname[nm]["F"] != prevname[nm]["F"] \
+                       or byname[nm]["REF"] != prevname[nm]["REF"]:
                         run.violation("pipeline:schedule:evaluated-off-multiple",
                                       "scenario %d run %s step %d (it=%d): bias b%d (factor %d) changed its energy/forces/state at a step where it must not be evaluated"
                                       % (sc["id"], tag, s, im["it"], j, sc["biases"][j]["tsf"]),
@@ -664,7 +695,7 @@ def user_enabled_at(sc, j, s):
         if ev[0] == "X":
             if ev[1] == j:
                 en = bool(ev[2])
-        else:
+        elif ev[0] in ("S", "R"):
             c += 1
             if c == s:
                 return en
@@ -731,7 +762,7 @@ def oracle_errors(run, sc, tag, subset, isteps):
                 if ev[0] == "X":
                     if ev[1] in subset and sc["biases"][ev[1]]["tsf"] > 1:
                         touched.add(ev[1])
-                else:
+                elif ev[0] in ("S", "R"):
                     c += 1
                     if c == s:
                         break
